@@ -1,6 +1,6 @@
 (* C05 dispatch: minimisation *)
 From Coq Require Import List Arith NArith Bool.
-From AV Require Import Base.Util Base.ITree Spec.Lang Spec.FA Model.Codec Model.Minimize.
+From AV Require Import Base.Util Base.ITree Spec.Lang Spec.FA Model.Codec Model.Minimize Model.Hopcroft.
 Import ListNotations.
 
 Definition enc_min (p : dfa * list (list nat)) : itree := L [enc_dfa (fst p); enc_list enc_nats (snd p)].
@@ -8,12 +8,78 @@ Definition enc_min (p : dfa * list (list nat)) : itree := L [enc_dfa (fst p); en
 (* op 1: [dfa] minify               -> res [dfa, partition]
    op 2: [dfa] to_partial(minify)   -> res [dfa, partition]
    op 3: [dfa] to_partial(plain)    -> res dfa
-   op 4: [dfa]                      -> [valid, is_trim] *)
+   op 4: [dfa]                      -> [valid, is_trim]
+   op 5: [dfa, which (1 minify / 2 to_partial), mode, choices, symbol order, 0]
+                                    -> res [partition, number of sets]   (Hopcroft mirror, given schedule)
+   op 6: [dfa, which, mode, choices, symbol order, representative mode]
+                                    -> res [dfa, partition]   (_minify entirely as coded, names = positions) *)
+(* ---- the mirror model of the Hopcroft refinement on the wire ----
+   a pop schedule is (mode, choices): the number c = choices[k] (0 when the list is exhausted) picks at
+   pop number k, among the pending ids W (in the order they became pending),
+     mode 0: the (c mod |W|)-th oldest   ([] = oldest first)
+     mode 1: the (c mod |W|)-th newest   ([] = newest first)
+     mode 2: the smallest id, mode 3 (or more): the largest id *)
+Definition wire_sched (mode : nat) (choices : list nat) (no : nat) (W : list nat) : nat :=
+  let c := nth no choices 0 in
+  match mode with
+  | 0 => nth (Nat.modulo c (length W)) W 0
+  | 1 => nth (length W - 1 - Nat.modulo c (length W)) W 0
+  | 2 => fold_right Nat.min (hd 0 W) W
+  | _ => fold_right Nat.max 0 W
+  end.
+
+(* next(iter(eq)): 0 the first member, 1 the last, 2 (or more) the middle one *)
+Definition wire_rep (mode : nat) (l : list nat) : nat :=
+  match mode with
+  | 0 => hd 0 l
+  | 1 => last l 0
+  | _ => nth (Nat.div (length l) 2) l 0
+  end.
+
+Definition kept_which (which : nat) (m : dfa) : res (list nat) :=
+  match which with 1 => kept_minify m | _ => kept_live m end.
+
+(* the final partition of the mirror model: [blocks without the trap, number of sets] *)
+Definition hop_partition (m : dfa) (which mode : nat) (choices sord : list nat) : res (list (list nat) * nat) :=
+  bind (kept_which which m) (fun K =>
+  match h_hopcroft m K (wire_sched mode choices) sord with
+  | None => Err Fuel
+  | Some P => Ok (h_blocks m K P, length (p_ids P))
+  end).
+
+Definition hop_coded (m : dfa) (which mode : nat) (choices sord : list nat) (rmode : nat)
+  : res (dfa * list (list nat)) :=
+  bind (kept_which which m) (fun K => cminify_core m K (wire_sched mode choices) sord (wire_rep rmode)).
+
+Definition dec_hop (t : itree) : option (dfa * nat * nat * list nat * list nat * nat) :=
+  match t with
+  | L [d; w; mo; ch; so; rm] =>
+    match dec_dfa d, dec_nat w, dec_nat mo, dec_nats ch, dec_nats so, dec_nat rm with
+    | Some m, Some which, Some mode, Some choices, Some sord, Some rmode => Some (m, which, mode, choices, sord, rmode)
+    | _, _, _, _, _, _ => None
+    end
+  | _ => None
+  end.
+
+Definition enc_part (p : list (list nat) * nat) : itree := L [enc_list enc_nats (fst p); In_ (snd p)].
+
+Definition d05h (op : nat) (t : itree) : itree :=
+  match dec_hop t with
+  | Some (m, which, mode, choices, sord, rmode) =>
+    match op with
+    | 5 => enc_res enc_part (hop_partition m which mode choices sord)
+    | _ => enc_res enc_min (hop_coded m which mode choices sord rmode)
+    end
+  | None => bad_input
+  end.
+
 Definition d05 (op : nat) (t : itree) : itree :=
   match op, dec_dfa t with
   | 1, Some m => enc_res enc_min (minify_full m)
   | 2, Some m => enc_res enc_min (to_partial_min_full m)
   | 3, Some m => enc_res enc_dfa (to_partial_plain m)
   | 4, Some m => L [Ib (valid_dfa m); Ib (is_trim m)]
+  | 5, _ => d05h 5 t
+  | 6, _ => d05h 6 t
   | _, _ => bad_input
   end.
